@@ -284,3 +284,17 @@ Lemma fmt_scale_pos x e : fmt x -> 0 <= e -> fmt (x * bpow radix2 e).
 Proof. intros Fx He. apply mult_bpow_pos_exact_FLT; [exact Fx | exact He]. Qed.
 Lemma fmt_scale x e : fmt x -> -1074 + 53 - mag radix2 x <= e -> fmt (x * bpow radix2 e).
 Proof. intros Fx He. apply mult_bpow_exact_FLT; [exact Fx | exact He]. Qed.
+
+(* more rounding facts *)
+Lemma fmt_bpow k : -1074 <= k -> fmt (bpow radix2 k).
+Proof. intros H. replace (bpow radix2 k) with (IZR 1 * bpow radix2 k)%R by ring. apply fmt_int; [simpl; lia | exact H]. Qed.
+Lemma rnd_opp x : rnd (- x) = (- rnd x)%R.
+Proof. apply round_NE_opp. Qed.
+Lemma rnd_abs_le x k : -1074 <= k -> (Rabs x <= bpow radix2 k)%R -> (Rabs (rnd x) <= bpow radix2 k)%R.
+Proof.
+  intros Hk H. apply Rabs_le_inv in H. apply Rabs_le. split.
+  - rewrite <- (rnd_fmt (bpow radix2 k)) by (apply fmt_bpow, Hk). rewrite <- rnd_opp. apply rnd_le. lra.
+  - rewrite <- (rnd_fmt (bpow radix2 k)) by (apply fmt_bpow, Hk). apply rnd_le. lra.
+Qed.
+Lemma rnd_nonneg x : (0 <= x)%R -> (0 <= rnd x)%R.
+Proof. intros H. rewrite <- rnd_0. apply rnd_le, H. Qed.
